@@ -3,6 +3,7 @@ import Heathcliff.Model.Evaluator
 import Heathcliff.Proofs.C07L
 import Heathcliff.Proofs.GenEval
 import Heathcliff.Proofs.GenRns2
+import Heathcliff.Proofs.GenRns3
 namespace HC.C05
 /-- the level walk of `mod_switch_to` / `rescale_to` refuses upward targets -/
 theorem switch_up_refused {cur tgt : Nat} (h : cur < tgt) : switchSteps cur tgt = .error .refused := by
@@ -115,5 +116,11 @@ theorem gen_divide_and_round_q_last_inplace_eq : type_of% @HC.gr_divide_and_roun
 /-- … and the routine behind BGV `mod_switch_to_next` (NTT form; the (i)NTT calls are abstract inputs instantiated with the model's transforms) -/
 theorem gen_mod_t_and_divide_q_last_ntt_inplace_eq : type_of% @HC.gr_mod_t_and_divide_q_last_ntt_inplace_eq :=
   @HC.gr_mod_t_and_divide_q_last_ntt_inplace_eq
+
+/-- the routine behind CKKS `rescale_to_next` / NTT-form division with rounding, generated from the source, equals the hand model -/
+theorem gen_divide_and_round_q_last_ntt_inplace_eq : type_of% @HC.gr_divide_and_round_q_last_ntt_inplace_eq := @HC.gr_divide_and_round_q_last_ntt_inplace_eq
+/-- END TO END (BGV `mod_switch_to_next`): on a well-formed BGV level the function generated from the Rust source returns the flat buffer of a polynomial
+    whose first size−1 components are the BGV division by the dropped prime of the input (`c05u_BgvDivOfNtt`), and y·q_L ≡ X (mod t) -/
+theorem gen_mod_t_and_divide_q_last_ntt_inplace_bgv : type_of% @HC.gr_mod_t_and_divide_q_last_ntt_inplace_bgv := @HC.gr_mod_t_and_divide_q_last_ntt_inplace_bgv
 
 end HC.C05
